@@ -62,6 +62,36 @@ var c06Forms = []c06Form{
 	{"M", "fhir-element", "Patient.name", "name"},
 	{"M", "fhir-element", "Patient.name.given", "name.given"},
 	{"M", "function", "'ab'.toChars()", "'ab'.toChars()"},
+	// one form per kind of expression node that can stand directly under a Boolean operator
+	{"T", "as-node", "(Patient.active as boolean)", "(active as boolean)"},
+	{"T", "as-node", "(%bt as Boolean)", "(%bt as Boolean)"},
+	{"T", "as-node", "(%fbt as boolean)", "(%fbt as boolean)"},
+	{"T", "is-node", "(1 is Integer)", "(1 is Integer)"},
+	{"T", "comparison-node", "(1 < 2)", "(1 < 2)"},
+	{"T", "indexer-node", "%tf[0]", "%tf[0]"},
+	{"T", "equality-node", "(Patient.active = true)", "(active = true)"},
+	{"F", "as-node", "(Patient.deceased as boolean)", "(deceased as boolean)"},
+	{"F", "as-node", "(%bf as Boolean)", "(%bf as Boolean)"},
+	{"F", "as-node", "(%fbf as boolean)", "(%fbf as boolean)"},
+	{"F", "is-node", "(1 is String)", "(1 is String)"},
+	{"F", "comparison-node", "(2 < 1)", "(2 < 1)"},
+	{"F", "indexer-node", "%ft[0]", "%ft[0]"},
+	{"F", "equality-node", "(Patient.active != true)", "(active != true)"},
+	{"E", "as-node", "(1 as String)", "(1 as String)"},
+	{"E", "as-node", "(Patient.active as string)", "(active as string)"},
+	{"E", "comparison-node", "(1 < {})", "(1 < {})"},
+	{"E", "indexer-node", "%ints[7]", "%ints[7]"},
+	{"E", "polarity-node", "(-%none)", "(-%none)"},
+	{"E", "arithmetic-node", "(1 + {})", "(1 + {})"},
+	{"N", "as-node", "(5 as Integer)", "(5 as Integer)"},
+	{"N", "as-node", "('x' as String)", "('x' as String)"},
+	{"N", "as-node", "(%i as Integer)", "(%i as Integer)"},
+	{"N", "as-node", "(Patient.gender as code)", "(gender as code)"},
+	{"N", "as-node", "(Patient.birthDate as date)", "(birthDate as date)"},
+	{"N", "arithmetic-node", "(1 + 1)", "(1 + 1)"},
+	{"N", "arithmetic-node", "('a' & 'b')", "('a' & 'b')"},
+	{"N", "polarity-node", "(-1)", "(-1)"},
+	{"N", "indexer-node", "%ints[0]", "%ints[0]"},
 }
 
 // c06Forms2: operand forms over an input collection of several resources of one type (the
